@@ -1,5 +1,7 @@
 import Proofs.Lemmas.Resp
 import Proofs.Lemmas.Mw
+import Model.RespCache
+import Generated.C13StatusSites
 /-!
 # C13 — HTTP response commits once; pre-commit status/headers reach the client;
 middlewares run in ascending priority, ties in registration order.
@@ -11,14 +13,13 @@ Property theorems only.  `Model.Resp` mirrors `std/net/http/response.go`,
 namespace C13
 open Model.Resp Spec.Resp Proofs.Resp
 
-/-- **Refinement.** For every operation sequence what the client observes from
-the buffered writer is exactly what the commit-once reference prescribes:
-last status set up to the first committing operation (200 if none), the header
-map at that point, the concatenation of all bodies, and the number of header
-commits on the underlying connection. -/
-theorem C13_refines (ops : List Op) : (Model.Resp.run ops).client = Spec.Resp.run ops := by
+/-- both views at once: on a recorder (`e = false`) and over a connection (`e = true`) the client-visible
+result of the buffered writer is the commit-once reference, its body cut down to what the wire keeps. -/
+theorem C13_refines_core (e : Bool) (ops : List Op) :
+    (Model.Resp.runOn e ops).client =
+      { Spec.Resp.run ops with body := kept e (Spec.Resp.run ops).status (Spec.Resp.run ops).body } := by
   have hsplit := List.takeWhile_append_dropWhile (p := fun o => !committing o) (l := ops)
-  have hpre := pre_foldl (ops.takeWhile (fun o => !committing o)) (takeWhile_all ops) {} [] pre_init
+  have hpre := pre_foldl e (ops.takeWhile (fun o => !committing o)) (takeWhile_all ops) _ [] (pre_init e)
   simp only [List.nil_append] at hpre
   unfold Spec.Resp.run
   cases hd : ops.dropWhile (fun o => !committing o) with
@@ -26,7 +27,7 @@ theorem C13_refines (ops : List Op) : (Model.Resp.run ops).client = Spec.Resp.ru
     rw [hd, List.append_nil] at hsplit
     rw [hsplit] at hpre
     obtain ⟨h1, h2, h3, h4, h5⟩ := hpre
-    simp only [Model.Resp.run, hsplit]
+    simp only [Model.Resp.runOn, hsplit, kept_empty]
     cases hs : lastStatus ops with
     | none =>
       simp [hs] at h4 h5
@@ -36,13 +37,14 @@ theorem C13_refines (ops : List Op) : (Model.Resp.run ops).client = Spec.Resp.ru
       simp [St.finish, St.client, St.writeHeader, Wire.writeHeader, h1, h2, h3, h4, h5]
   | cons c rest =>
     have hc : committing c = true := dw_head ops c rest hd
-    have hpost0 := commit_step _ _ c hpre hc
-    have hpost := post_foldl rest _ _ _ _ hpost0
-    have hrun : Model.Resp.run ops =
-        (rest.foldl step (step ((ops.takeWhile (fun o => !committing o)).foldl step {}) c)).finish := by
-      conv => lhs; rw [Model.Resp.run, ← hsplit, hd]
+    have hpost0 := commit_step e _ _ c hpre hc
+    have hpost := post_foldl e rest _ _ _ _ hpost0
+    have hrun : Model.Resp.runOn e ops =
+        (rest.foldl step (step ((ops.takeWhile (fun o => !committing o)).foldl step
+          { wire := { enforce := e } }) c)).finish := by
+      conv => lhs; rw [Model.Resp.runOn, ← hsplit, hd]
       simp [List.foldl_append]
-    rw [hrun, post_finish _ _ _ _ hpost, post_client _ _ _ _ hpost]
+    rw [hrun, post_finish e _ _ _ _ hpost, post_client e _ _ _ _ hpost]
     have hbody : concat (ops.map bodyOf) = bodyOf c ++ concat (rest.map bodyOf) := by
       conv => lhs; rw [← hsplit, hd]
       rw [List.map_append, concat_append, concat_map_bodyOf_pre _ (takeWhile_all ops), List.map_cons,
@@ -50,17 +52,74 @@ theorem C13_refines (ops : List Op) : (Model.Resp.run ops).client = Spec.Resp.ru
       simp
     simp [hbody]
 
+/-- **Refinement.** For every operation sequence what the client observes from
+the buffered writer is exactly what the commit-once reference prescribes:
+last status set up to the first committing operation (200 if none), the header
+map at that point, the concatenation of all bodies, and the number of header
+commits on the underlying connection. (Recorder view: every write is kept.) -/
+theorem C13_refines (ops : List Op) : (Model.Resp.run ops).client = Spec.Resp.run ops := by
+  have := C13_refines_core false ops
+  simpa [Model.Resp.run, kept] using this
+
+/-- **Refinement over a real connection.** What an HTTP client receives is the commit-once reference
+with the body present exactly when the COMMITTED status can carry one (not 1xx/204/304). The model
+enforces this write by write, as net/http does (`ErrBodyNotAllowed`, swallowed by the writer); the
+reference decides it once, from the committed status alone — so a status that was chosen and then
+replaced before the commit has no say in whether the body arrives. -/
+theorem C13_conn_refines (ops : List Op) : (Model.Resp.runConn ops).client = Spec.Resp.runConn ops := by
+  rw [Model.Resp.runConn, C13_refines_core true ops]
+  simp only [Spec.Resp.runConn, kept, bodyAllowed_eq, Bool.true_and, Bool.not_not]
+  split <;> simp_all
+
+/-- **Every body byte reaches the client when the committed status allows a body**, for every operation
+sequence — whatever statuses were chosen and replaced before the commit, and whatever is called after it. -/
+theorem C13_body_reaches_client (ops : List Op)
+    (h : bodyAllowed (Model.Resp.runConn ops).client.status = true) :
+    (Model.Resp.runConn ops).client.body = concat (ops.map bodyOf) := by
+  have hb : (Spec.Resp.run ops).body = concat (ops.map bodyOf) := by
+    unfold Spec.Resp.run
+    cases hd : ops.dropWhile (fun o => !committing o) with
+    | nil => simp [concat_map_bodyOf_pre ops (dw_nil_all ops hd)]
+    | cons c rest => simp
+  rw [Model.Resp.runConn, C13_refines_core true ops] at h ⊢
+  simp only [kept] at h ⊢
+  simp_all
+
+/-- The shape a stale status-derived decision breaks: non-committing operations `pre` (any statuses,
+for instance `status(204)`), then a committing operation `c` that carries the status `k`, then anything.
+If `k` allows a body the client receives `k` and every body byte of `c :: rest`. -/
+theorem C13_replaced_status_cannot_drop_body (pre rest : List Op) (c : Op) (k : Nat)
+    (hpre : ∀ o ∈ pre, committing o = false) (hc : committing c = true) (hk : statusOf c = some k)
+    (hb : bodyAllowed k = true) :
+    (Model.Resp.runConn (pre ++ c :: rest)).client.status = k ∧
+    (Model.Resp.runConn (pre ++ c :: rest)).client.body = concat ((c :: rest).map bodyOf) := by
+  have htw : (pre ++ c :: rest).takeWhile (fun o => !committing o) = pre := by
+    rw [List.takeWhile_append_of_pos (by simpa using hpre)]
+    simp [hc]
+  have hdw : (pre ++ c :: rest).dropWhile (fun o => !committing o) = c :: rest := by
+    rw [List.dropWhile_append_of_pos (by simpa using hpre)]
+    simp [hc]
+  have hst : (Spec.Resp.run (pre ++ c :: rest)).status = k := by
+    simp only [Spec.Resp.run, htw, hdw]
+    simp [lastStatus_snoc_some pre c k hk]
+  have hst' : (Model.Resp.runConn (pre ++ c :: rest)).client.status = k := by
+    rw [Model.Resp.runConn, C13_refines_core true]; exact hst
+  refine ⟨hst', ?_⟩
+  rw [C13_body_reaches_client _ (by rw [hst']; exact hb), List.map_append, concat_append,
+    concat_map_bodyOf_pre pre hpre]
+  simp
+
 /-- **At most one header commit** reaches the underlying connection, for every
-operation sequence. (Also a corollary of `C13_refines`; proved from the
-invariant so that it does not depend on the spec.) -/
-theorem C13_single_commit (ops : List Op) : (Model.Resp.run ops).wire.commits ≤ 1 := by
-  have h := inv_foldl ops {} inv_init
-  have hf : Inv (ops.foldl step {}).finish := by
+operation sequence, on a recorder and over a connection. (Also a corollary of the refinement; proved
+from the invariant so that it does not depend on the spec.) -/
+theorem C13_single_commit (e : Bool) (ops : List Op) : (Model.Resp.runOn e ops).wire.commits ≤ 1 := by
+  have h := inv_foldl ops _ (inv_init e)
+  have hf : Inv (ops.foldl step { wire := { enforce := e } }).finish := by
     unfold St.finish; split
     · exact inv_writeHeader _ _ h
     · exact h
-  unfold Model.Resp.run
-  rcases hh : (ops.foldl step {}).finish.headerSent with _ | _
+  unfold Model.Resp.runOn
+  rcases hh : (ops.foldl step { wire := { enforce := e } }).finish.headerSent with _ | _
   · have := (hf.unsent hh).2.1; omega
   · have := (hf.sent hh).2; omega
 
@@ -85,6 +144,17 @@ theorem C13_post_commit_inert (ops₁ ops₂ : List Op) (h : ∃ o ∈ ops₁, c
   rw [C13_refines, C13_refines]
   simp only [Spec.Resp.run, htw, hdw, hd]
   simp [List.map_append, concat_append]
+
+/-- the same over a real connection: a call after the commit cannot alter the status or the header
+block the client receives, and the connection still sees exactly one commit. -/
+theorem C13_post_commit_inert_conn (ops₁ ops₂ : List Op) (h : ∃ o ∈ ops₁, committing o = true) :
+    (Model.Resp.runConn (ops₁ ++ ops₂)).client.status = (Model.Resp.runConn ops₁).client.status ∧
+    (Model.Resp.runConn (ops₁ ++ ops₂)).client.hdr = (Model.Resp.runConn ops₁).client.hdr ∧
+    (Model.Resp.runConn (ops₁ ++ ops₂)).client.commits = 1 := by
+  have h0 := C13_post_commit_inert ops₁ ops₂ h
+  rw [C13_refines, C13_refines] at h0
+  simp only [Model.Resp.runConn, C13_refines_core true]
+  exact ⟨h0.1, h0.2.1, h0.2.2.1⟩
 
 /-- **Default 200**: if no operation up to and including the first committing
 one asks for a status, the client receives 200. -/
@@ -111,6 +181,89 @@ theorem C13_default_200 (ops : List Op) (h : ∀ o ∈ ops, statusOf o = none) :
       · exact List.mem_append_left _ h1
       · exact List.mem_append_right _ (by simp at h1; simp [h1]))
     simp [this]
+
+/-! ### a decision cached from the status is recomputed wherever the status is assigned
+
+`Generated.C13.facts` (regenerated from std/net/http/*.go on every run) lists the places that assign
+`bufferedWriter.status` and the fields of the struct that some assignment computes from the status.
+The abstract machine `Model.RespCache.CSt` is a status plus ONE such cached value. -/
+section cache
+open Model.RespCache
+
+/-- **A cache that every assignment site refreshes is always coherent**: after any history of site runs
+with any codes, the cached value is the function of the CURRENT status — whatever the function is,
+whatever the state was before. -/
+theorem C13_status_cache_coherent {α : Type} (g : Nat → α) (s0 : CSt α) (hist : List (Bool × Nat))
+    (h0 : Coherent g s0) (hall : ∀ p ∈ hist, p.1 = true) : Coherent g (runSites g s0 hist) := by
+  unfold runSites
+  induction hist generalizing s0 with
+  | nil => exact h0
+  | cons p ps ih =>
+    rw [List.foldl_cons]
+    apply ih
+    · have := hall p List.mem_cons_self
+      simp [Coherent, CSt.assign, this]
+    · exact fun q hq => hall q (List.mem_cons_of_mem _ hq)
+
+/-- **One site that does not refresh is enough to go stale** (negation witness, for every function that
+distinguishes two codes): a refreshing site stores `c₁`, a non-refreshing one replaces it by `c₂` — the
+cache still answers for `c₁`. With `g = "forbids a body"`, `c₁ = 204`, `c₂ = 200` this is
+`status(204); writeHeader(200)` followed by a body write that is dropped. -/
+theorem C13_stale_site_breaks_cache {α : Type} (g : Nat → α) (s0 : CSt α) (c₁ c₂ : Nat) (hne : g c₁ ≠ g c₂) :
+    ¬ Coherent g (runSites g s0 [(true, c₁), (false, c₂)]) := by
+  simp [runSites, Coherent, CSt.assign, hne]
+
+/-- the generic step from the regenerated table to the machine: if no (site, field) pair is listed as a
+violation, every history over the status-assigning sites keeps every status-derived field coherent. -/
+theorem C13_status_sites_sound (f : Facts) (hwf : f.violations = []) {α : Type} (g : Nat → α) (s0 : CSt α)
+    (h0 : Coherent g s0) (d : String) (hd : d ∈ f.derivedFields) (h : List (Site × Nat))
+    (hs : ∀ p ∈ h, p.1 ∈ f.assignSites) : Coherent g (runSites g s0 (histOf d h)) := by
+  apply C13_status_cache_coherent g s0 _ h0
+  intro p hp
+  simp only [histOf, List.mem_map] at hp
+  obtain ⟨q, hq, rfl⟩ := hp
+  show q.1.refreshes.contains d = true
+  have hsite := hs q hq
+  cases hc : q.1.refreshes.contains d with
+  | true => rfl
+  | false =>
+    exfalso
+    have : (q.1.fn, d) ∈ f.violations := by
+      unfold Facts.violations
+      rw [List.mem_flatMap]
+      exact ⟨q.1, hsite, List.mem_map.mpr ⟨d, List.mem_filter.mpr ⟨hd, by rw [hc]; rfl⟩, rfl⟩⟩
+    rw [hwf] at this
+    cases this
+
+/-- **Obligation on the current source**: no place that assigns `bufferedWriter.status` leaves a field
+computed from the status as it was, and the translator found the shapes it expects. -/
+theorem C13_status_sites_wf :
+    Generated.C13.facts.violations = [] ∧ Generated.C13.facts.shapeChanged = [] := by decide
+
+/-- … hence every history over the real assignment sites keeps every status-derived field coherent. -/
+theorem C13_status_sites_coherent {α : Type} (g : Nat → α) (s0 : CSt α) (h0 : Coherent g s0) (d : String)
+    (hd : d ∈ Generated.C13.facts.derivedFields) (h : List (Site × Nat))
+    (hs : ∀ p ∈ h, p.1 ∈ Generated.C13.facts.assignSites) : Coherent g (runSites g s0 (histOf d h)) :=
+  C13_status_sites_sound _ C13_status_sites_wf.1 g s0 h0 d hd h hs
+
+/-- non-vacuity of the obligation: the table of a writer that caches "forbids a body" in `SetStatus`
+only is rejected, with the three stale sites named. -/
+example : Facts.violations
+    { fields := ["status", "statusSet", "headerSent", "noBody"],
+      derived := [{ field := "noBody", fn := "bufferedWriter.SetStatus", how := "rhs" }],
+      sites := [{ fn := "bufferedWriter.NoContent", kind := "assign", refreshes := ["headerSent", "status", "statusSet"] },
+                { fn := "bufferedWriter.SetStatus", kind := "assign", refreshes := ["noBody", "status", "statusSet"] },
+                { fn := "bufferedWriter.WriteHeader", kind := "assign", refreshes := ["headerSent", "status"] },
+                { fn := "newBufferedWriter", kind := "literal", refreshes := ["status"] }],
+      shapeChanged := [] }
+    = [("bufferedWriter.NoContent", "noBody"), ("bufferedWriter.WriteHeader", "noBody")] := by decide
+
+example : ¬ Coherent (fun c => !bodyAllowed c) (runSites (fun c => !bodyAllowed c) ⟨200, false⟩ [(true, 204), (false, 200)]) :=
+  C13_stale_site_breaks_cache _ _ 204 200 (by decide)
+
+example : Coherent (fun c => !bodyAllowed c) (⟨200, false⟩ : CSt Bool) := by simp [Coherent, bodyAllowed]
+
+end cache
 
 /-! ### middleware order -/
 open Model.Mw Proofs.Mw
@@ -147,6 +300,14 @@ theorem C13_mw_order_general (final : Handler) (entries : List Entry) :
   · exact chain_eq_expected final _
 
 /-! ### non-vacuity -/
+
+example : (Model.Resp.runConn [.status 204, .writeHeader 200, .write "x"]).client
+    = { status := 200, hdr := [], body := "x", commits := 1 } := by decide
+
+example : (Model.Resp.runConn [.status 200, .noContent 204, .write "x", .json "[1]"]).client
+    = { status := 204, hdr := [], body := "", commits := 1 } := by decide
+
+example : ∀ o ∈ [Op.status 204, Op.header "X" "1"], committing o = false := by decide
 
 example : (Model.Resp.run [.header "X" "1", .status 201, .write "a", .status 500, .header "Y" "2", .write "b"]).client
     = { status := 201, hdr := [("X", ["1"])], body := "ab", commits := 1 } := by decide
